@@ -54,8 +54,10 @@ pub trait Interface: ErrorHandler {
     /// Parses and executes the commands in the input buffer.
     ///
     /// The result is written to the response buffer. Any remaining input that
-    /// was not parsed is returned. If an error occurs, the remaining input
-    /// is returned and the error is passed to the error handler.
+    /// was not parsed is returned. If a message cannot be parsed, the error is
+    /// passed to the error handler, the rest of that message (up to and
+    /// including its terminator) is discarded and execution continues with the
+    /// next message.
     async fn run<'a>(&mut self, mut input: &'a [u8], response: &mut impl crate::Write) -> &'a [u8] {
         let mut header = self.root_node();
 
@@ -74,7 +76,17 @@ pub trait Interface: ErrorHandler {
                 #[cfg(feature = "defmt")]
                 defmt::trace!("Parse error");
                 self.handle_error(error.into());
-                return input;
+
+                // Discard the rest of the faulty message and continue with the next one. Without
+                // a terminator the end of the message is not known yet.
+                match input.iter().position(|b| *b == b'\n') {
+                    Some(position) => {
+                        input = &input[position + 1..];
+                        header = self.root_node();
+                        continue;
+                    }
+                    None => return input,
+                }
             }
 
             let (i, call) = result.unwrap();
